@@ -253,7 +253,38 @@ def _run_lagrange_float(case):
                         if abs(arr[p, k, i] - exact) > 1e-11 * max(1.0, abs(exact)):
                             v.append(viol("eval_pg", f"{et} Get_{name}_pg({mt})[{p},{k},{i}]={arr[p, k, i]!r} exact {exact!r}",
                                           elemType=et, table=name, matrixType=str(mt)))
-    return {"violations": v[:20], "fingerprint": fp(et, "float", nent), "nontrivial": True, "transitions": max(1, nent)}
+    # the evaluator itself (_Eval_Functions) at coordinates of ANY numeric dtype: the element's own node table as returned
+    # (integer typed for several elements), and an integer-typed lattice of the reference cell
+    from EasyFEA.FEM._group_elem import _GroupElem
+
+    loc_native = np.asarray(g.Get_Local_Coords()).reshape(nPe, -1)[:, :dim]
+    lattices = [("nodes_native_dtype", loc_native), ("nodes_float", loc_native.astype(float)),
+                ("int_lattice", np.array([[0] * dim, [1] + [0] * (dim - 1), [0] * (dim - 1) + [1]], dtype=np.int64))]
+    tables = [("N", 0, g._N()), ("dN", 1, g._dN()), ("ddN", 2, g._ddN()), ("dddN", 3, g._dddN()), ("ddddN", 4, g._ddddN())]
+    for lname_, pts in lattices:
+        for name, nd, funcs in tables:
+            arr = np.asarray(_GroupElem._Eval_Functions(np.asarray(funcs, dtype=object).reshape(nPe, -1), pts), dtype=float)
+            ncomp = 1 if nd == 0 else dim
+            for p, x in enumerate(pts):
+                xq = [Fraction(float(c)) for c in x]
+                for i in range(nPe):
+                    for k in range(ncomp):
+                        exact = float(_nth_diff(N[i], k, nd).eval(xq)) if nd else float(N[i].eval(xq))
+                        nent += 1
+                        if abs(arr[p, k, i] - exact) > 1e-11 * max(1.0, abs(exact)):
+                            v.append(viol("eval_functions", f"{et} _Eval_Functions({name}) at {lname_} point {x.tolist()} [{k},{i}] = {arr[p, k, i]!r} exact {exact!r}",
+                                          elemType=et, table=name, points=lname_))
+    return {"violations": _first_per_key(v), "fingerprint": fp(et, "float", nent), "nontrivial": True, "transitions": max(1, nent)}
+
+
+def _first_per_key(v, cap=12):
+    seen, out = set(), []
+    for x in v:
+        k = str(sorted(x["key"].items()))
+        if k not in seen:
+            seen.add(k)
+            out.append(x)
+    return out[:cap]
 
 
 def _run_hermite(case):
